@@ -352,3 +352,35 @@ func raceQuery(cfg *SolveCfg, q *Query, id string) {
 		}
 	}
 }
+
+// MakePruner returns a feasibility oracle for the two outcomes of a branch condition. It answers "infeasible"
+// only when z3 proves facts && cond unsat; quantified facts are dropped (sound for pruning: fewer facts).
+func MakePruner(e *Engine, workDir string, timeoutMs int) func(st *State, cond string) (bool, bool) {
+	os.MkdirAll(workDir, 0o755)
+	n := 0
+	return func(st *State, cond string) (bool, bool) {
+		n++
+		var sb strings.Builder
+		sb.WriteString(e.d.PreludeQF())
+		for _, d := range st.decls {
+			sb.WriteString(d)
+			sb.WriteString("\n")
+		}
+		for _, it := range st.items {
+			if it.Kind == ItAssert && !strings.Contains(it.Text, "(forall ") && !strings.Contains(it.Text, "(exists ") {
+				sb.WriteString("(assert " + it.Text + ")\n")
+			}
+		}
+		sb.WriteString("(push 1)\n(echo \"@@ 0\")\n(assert " + cond + ")\n(check-sat)\n(pop 1)\n")
+		sb.WriteString("(push 1)\n(echo \"@@ 1\")\n(assert (not " + cond + "))\n(check-sat)\n(pop 1)\n")
+		file := filepath.Join(workDir, fmt.Sprintf("feas%d.smt2", n%64))
+		os.WriteFile(file, []byte(sb.String()), 0o644)
+		ctx, cancel := context.WithTimeout(context.Background(), time.Duration(2*timeoutMs+500)*time.Millisecond)
+		defer cancel()
+		ans, _, err := runSolver(ctx, solvers[0], file, timeoutMs)
+		if err != nil {
+			return true, true
+		}
+		return ans[0].status != "unsat", ans[1].status != "unsat"
+	}
+}
